@@ -1,11 +1,17 @@
 """C03  Async events: in-order data, exactly-one disconnect, exactly-one connect."""
 import itertools
+from props import c18
 
 ID = "C03"
 SRC = ["scen/async_events.cpp", "vos/vos.cpp"]
 HARNESSES = {
     "aevents": dict(sources=SRC, flavour="asan", mode="C03", timeout=30),
     "default": dict(name="aevents", sources=SRC, flavour="asan", mode="C03", timeout=30),
+    # asynchronous TLS sockets (C18: "... after which C01, C02, C03, C07 and C15 hold unchanged"): the same event guarantees
+    # - every byte delivered in order in non-empty chunks, nothing held back although it was received, exactly one disconnect -
+    # through C18's harness and driver (real OpenSSL): receive buffers smaller than a TLS record, records arriving in
+    # several segments, data queued before / during the handshake
+    "tls": dict(c18.HARNESSES["tls"]),
 }
 RULE = ("histories over one Driver with 1-4 raw peers played by the harness: library client sockets (peer = harness listener) and "
         "AcceptorAsync + peer connects (connect handler upgrades to SocketTcpAsync), peer send (1..10000 bytes, distinct content per "
@@ -33,6 +39,8 @@ SHRINK = True
 
 
 def nontrivial(ops, tags):
+    if any(t.startswith("pair.tls") for t in tags):
+        return "task.readable" in tags
     return ("data" in tags or "data.full" in tags) and any(t.startswith("disconnect") for t in tags) and \
         (("connect" in tags) or ("handler.destroys" in tags) or sum(1 for o in ops if o.startswith("client")) >= 2)
 
@@ -122,6 +130,21 @@ def gen(rng, tier):
     count = 800 if tier == "quick" else 30000
     for k in range(count):
         cases.append(("aevents", "e%d" % k, rand_history(rng)))
+    # TLS slice: at least one asynchronous endpoint
+    combos = [c for c in c18.matrix() if "async" in (c[0], c[1])]
+    if tier == "quick":
+        combos = rng.sample(combos, 40)
+    for k, (cli, srv, ct, st, cf, sf, style, seg, shared) in enumerate(combos):
+        csz, ssz = rng.choice([1, 100, 3000, 20000]), rng.choice([1, 100, 3000, 20000])
+        if seg == 1:
+            csz, ssz = min(csz, 3000), min(ssz, 3000)
+        ops = c18.case_ops(cli, srv, ct, st, cf, sf, style, seg, rng.randrange(10**6), csz, ssz, shared,
+                           rsz=rng.choice([20000, 20000, 4096, 777]))
+        if ops:
+            cases.append(("tls", "tls%d" % k, ops))
+    # receive buffer smaller than one TLS record, the peer goes quiet after it (F8)
+    for csz, rsz in ((10000, 4096), (40000, 1000), (16384, 16383)):
+        cases.append(("tls", "tlsf8_%d" % rsz, c18.case_ops("basic", "async", 0, 0, "s", "r", "seq", 0, rng.randrange(10**6), csz, 0, rsz=rsz)))
     if tier == "thorough":
         alphabet = ["send 2 3", "send 4 2", "close 2", "rst 4", "step", "arm 2", "onev 2 4"]
         k = 0
